@@ -69,7 +69,8 @@ func (dw *DiskWriter) Wait(ctx context.Context) error {
 	if err := dw.eg.Wait(); err != nil {
 		return err
 	}
-	return filepath.WalkDir(dw.dest, func(path string, d gofs.DirEntry, prevErr error) error {
+	// the trailing separator makes the walk enter a destination that is itself a symlink to a directory
+	return filepath.WalkDir(dw.dest+string(filepath.Separator), func(path string, d gofs.DirEntry, prevErr error) error {
 		if prevErr != nil {
 			return prevErr
 		}
